@@ -620,9 +620,10 @@ func (gen *Generator) GenerateCond(args []Sexp) error {
 }
 
 func (gen *Generator) GenerateQuote(args []Sexp) error {
-	for _, expr := range args {
-		gen.AddInstruction(PushInstr{expr})
+	if len(args) != 1 {
+		return fmt.Errorf("quote takes exactly one argument")
 	}
+	gen.AddInstruction(PushInstr{args[0]})
 	return nil
 }
 
@@ -782,6 +783,11 @@ func (gen *Generator) GenerateCallBySymbol(sym *SexpSymbol, args []Sexp, orig Se
 	case "defn":
 		return gen.GenerateDefn(args, orig)
 	case "begin":
+		if len(args) == 0 {
+			// (begin) is an expression like any other: it yields nil.
+			gen.AddInstruction(PushInstr{SexpNull})
+			return nil
+		}
 		return gen.GenerateBegin(args)
 	case "let":
 		return gen.GenerateLet("let", args)
@@ -1655,8 +1661,9 @@ func (gen *Generator) GenerateNewScope(expressions []Sexp) error {
 	oldtail := gen.Tail
 	gen.Tail = false
 	if size == 0 {
+		// (newScope) is an expression like any other: it yields nil.
+		gen.AddInstruction(PushInstr{SexpNull})
 		return nil
-		//return NoExpressionsFound
 	}
 
 	gen.AddInstruction(AddScopeInstr{Name: "newScope"})
@@ -1763,6 +1770,8 @@ func getQuotedSymbol(expr *SexpPair) (*SexpSymbol, error) {
 func (gen *Generator) GenerateReturn(xs []Sexp) error {
 	n := len(xs)
 	if n == 0 {
+		// (return) yields nil.
+		gen.AddInstruction(PushInstr{SexpNull})
 		return nil
 	}
 
